@@ -1,10 +1,13 @@
 SPECIFICATION Spec
 CONSTANTS
   FixNilRecover = TRUE
+  TxDoneIsError = TRUE
   MaxArgs = 1
   MaxSteps = 3
   MaxEx = 1
   Outs = {"ok", "err", "panic", "pnil", "exit"}
+  Fins = {"none"}
+  CancelOn = FALSE
 INVARIANTS TypeOK FinishedOnce CommitIffAllOk NoLaterStep NoBeginForEmpty RetRight GoneOnlyByExit
 PROPERTIES StepsOnlyInOpenTx ExecInsideTx FinishGuard NothingAfterAnswer
 VIEW View
